@@ -244,11 +244,12 @@ def run(ctx):
     et = ctx.cls("clikit.ui.components.exception_trace.ExceptionTrace")
     rend = et.methods.get("render")
     # the trace renderer is what the except arm of run() calls
-    called = [cs for cs in cg.sites_in(run_fn) if rend in cs.targets and any(isinstance(a, ast.ExceptHandler) for a in _ancestors(cs.node))]
+    called = [cs for cs in cg.sites_in(run_fn) if any(isinstance(a, ast.ExceptHandler) for a in _ancestors(cs.node))
+              and any(rend.qualname in cg.reachable([t]) for t in cs.targets)]
     ctx.require(called, "run()'s exception arm does not call ExceptionTrace.render any more")
     taint_rule(ctx, "C04-R4", [run_fn, rend],
                "in the error report written by run()'s exception arm, text that is not authored markup never reaches a "
-               "markup-interpreting sink that can raise (else the failure of the report escapes run())", reference=42)
+               "markup-interpreting sink that can raise (else the failure of the report escapes run())", reference=40)
 
     # ---------------------------------------------------------------- R7
     from .c20 import theme_null_rule
